@@ -312,6 +312,25 @@ def primitive_cells(rng: random.Random | None):  # noqa: ANN201
     yield ("functools.reduce[async empty + initial]", {}, b_reduce_async_empty)
 
 
+async def _fork(AI, source, how: str):  # noqa: ANN001, ANN202, N803
+    """tee() applied to a tee iterator; the parent is advanced first"""
+    if how == "sibling-exhausted":
+        parent, sibling = AI.tee(source, 2)
+        async for _ in sibling:
+            pass
+    else:
+        (parent,) = AI.tee(source, 1)
+        if how == "exhausted":
+            async for _ in parent:
+                pass
+        elif how == "one-pulled":
+            async for _ in parent:
+                break
+
+    (fork,) = AI.tee(parent, 1)
+    return fork
+
+
 def itertools_cells(rng: random.Random | None):  # noqa: ANN201
     """yield (name, params, maker(source_kind) -> async iterable, limit)"""
     from anyio import itertools as AI
@@ -361,6 +380,12 @@ def itertools_cells(rng: random.Random | None):  # noqa: ANN201
         ("repeat", {"times": None}, lambda k: AI.repeat(1)),
         ("tee", {"n": 2}, lambda k: AI.tee(src(k), 2)),
         ("tee", {"n": 1}, lambda k: AI.tee(src(k), 1)),
+        # forks of an existing tee iterator (prepared before the measured traversal)
+        ("tee", {"fork": "of-exhausted-parent"}, lambda k: _fork(AI, src(k), "exhausted")),
+        ("tee", {"fork": "mid-stream"}, lambda k: _fork(AI, src(k), "one-pulled")),
+        ("tee", {"fork": "of-parent-whose-sibling-found-the-end"},
+         lambda k: _fork(AI, src(k), "sibling-exhausted")),
+        ("tee", {"fork": "fresh"}, lambda k: _fork(AI, src(k), "fresh")),
     ]
     for n in ks:
         cells += [
@@ -566,16 +591,20 @@ async def run_iter(name, params, mk, kind, half, col, cfg) -> None:  # noqa: ANN
     viol = []
     try:
         with anyio.fail_after(10):
+            obj = mk(kind)
+            if asyncio.iscoroutine(obj):
+                obj = await obj  # preparation outside the measured window
+
             if half == "yield":
                 marker: list = []
                 loop.call_soon(marker.append, 1)
-                n = await _traverse(mk(kind))
+                n = await _traverse(obj)
                 if not marker:
                     viol.append(("no-yield", {"cell": case["cell"], "yielded": n}))
             else:
                 reached = []
                 with _Ctx(half.partition(":")[2]) as s:
-                    await _traverse(mk(kind))
+                    await _traverse(obj)
                     reached.append(1)
 
                 if reached or not s.cancelled_caught:
